@@ -9,6 +9,8 @@ import (
 	"mime/multipart"
 	"net/http"
 	"net/url"
+	"os"
+	"path/filepath"
 	"sort"
 	"strconv"
 	"strings"
@@ -303,6 +305,10 @@ type c11Built struct {
 
 func c11Exec(in []string) []string {
 	c := c11Decode(in)
+	for _, old := range c11TmpFiles { // the real files of the previous case
+		_ = os.Remove(old)
+	}
+	c11TmpFiles = c11TmpFiles[:0]
 
 	rt := client.New("localhost", "/", []string{"http"})
 	rt.Producers = map[string]runtime.Producer{}
@@ -347,6 +353,9 @@ func c11Exec(in []string) []string {
 				base := &c11File{name: f.name, c11ReadCloser: c11ReadCloser{c11Reader{data: []byte(f.content), chunk: f.chunking / 2, eofWith: f.chunking%2 == 1}}}
 				if f.hasDecl {
 					files[j] = c11TypedFile{base, f.decl}
+				} else if osf := c11OSFile(f, j); osf != nil {
+					// a real *os.File (SetFileParam stats it; its Name() is a full path)
+					files[j] = osf
 				} else if (len(f.content)+j)%3 == 0 {
 					// the library's own way of naming a reader (runtime.NamedReader): no declared type either
 					files[j] = runtime.NamedReader(f.name, &base.c11ReadCloser)
@@ -511,6 +520,9 @@ func c11ErrClass(err error) string {
 		return "copy-error"
 	}
 	// any other producer error (encoding/xml, bytestream: unsupported value ...)
+	if os.Getenv("C11_DEBUG") != "" {
+		fmt.Fprintln(os.Stderr, "C11 other error:", msg)
+	}
 	return "other"
 }
 
@@ -873,4 +885,39 @@ func c11Gen(r *proto.Rng, n int, tier string, emit func(in ...string)) {
 		}
 		emit(c.encode()...)
 	}
+}
+
+var c11TmpDir string
+var c11TmpFiles []string
+var c11TmpSeq int
+
+// c11OSFile: on some cases the untyped file is a real *os.File below a scratch directory of this process
+// (nil when the name cannot be a plain file name here). Its base name is the case's file name.
+func c11OSFile(f c11FileIn, j int) *os.File {
+	if (len(f.content)+j)%5 != 1 || f.name == "" || f.name == "." || f.name == ".." ||
+		strings.ContainsAny(f.name, "/\x00") || len(f.name) > 200 {
+		return nil
+	}
+	if c11TmpDir == "" {
+		d, err := os.MkdirTemp("", "c11-files-")
+		if err != nil {
+			return nil
+		}
+		c11TmpDir = d
+	}
+	c11TmpSeq++
+	dir := filepath.Join(c11TmpDir, strconv.Itoa(c11TmpSeq%64)) // same name twice in one case: separate directories
+	if err := os.MkdirAll(dir, 0o700); err != nil {
+		return nil
+	}
+	p := filepath.Join(dir, f.name)
+	if err := os.WriteFile(p, []byte(f.content), 0o600); err != nil {
+		return nil
+	}
+	fh, err := os.Open(p)
+	if err != nil {
+		return nil
+	}
+	c11TmpFiles = append(c11TmpFiles, p) // removed when the next case starts (SetFileParam stats the path)
+	return fh
 }
